@@ -520,3 +520,97 @@ def c16_r9(ctx):
                detail="; ".join("%s at line %d" % (norm.canon(h), h.lineno) for h in hits[:4]), loc=m.relpath)
     if nmod < 100:
         raise AnalysisError("only %d modules scanned" % nmod)
+
+
+_MUTATING = ("append", "extend", "add", "update", "insert", "pop", "remove", "clear", "setdefault", "discard", "sort", "popitem")
+
+
+def _self_mutated(fnode):
+    out = set()
+    for s in ast.walk(fnode):
+        tg = s.targets if isinstance(s, ast.Assign) else ([s.target] if isinstance(s, ast.AugAssign) else [])
+        for t in tg:
+            for x in (t.elts if isinstance(t, (ast.Tuple, ast.List)) else [t]):
+                if isinstance(x, ast.Attribute) and isinstance(x.value, ast.Name) and x.value.id == "self":
+                    out.add(x.attr)
+                if isinstance(x, ast.Subscript) and isinstance(x.value, ast.Attribute) and isinstance(x.value.value, ast.Name) \
+                        and x.value.value.id == "self":
+                    out.add(x.value.attr)
+        if isinstance(s, ast.Call) and isinstance(s.func, ast.Attribute) and s.func.attr in _MUTATING and isinstance(s.func.value, ast.Attribute) \
+                and isinstance(s.func.value.value, ast.Name) and s.func.value.value.id == "self":
+            out.add(s.func.value.attr)
+    return out
+
+
+def _self_invalidated(fnode):
+    """attributes reset to an empty value: self.C = None / {} / [] , self.C.clear()"""
+    out = set()
+    for s in ast.walk(fnode):
+        if isinstance(s, ast.Assign):
+            v = s.value
+            empty = (isinstance(v, ast.Constant) and v.value is None) or (isinstance(v, (ast.List, ast.Tuple, ast.Set)) and not v.elts) or \
+                (isinstance(v, ast.Dict) and not v.keys)
+            if empty:
+                for t in s.targets:
+                    if isinstance(t, ast.Attribute) and isinstance(t.value, ast.Name) and t.value.id == "self":
+                        out.add(t.attr)
+        if isinstance(s, ast.Call) and isinstance(s.func, ast.Attribute) and s.func.attr == "clear" and isinstance(s.func.value, ast.Attribute) \
+                and isinstance(s.func.value.value, ast.Name) and s.func.value.value.id == "self":
+            out.add(s.func.value.attr)
+    return out
+
+
+def _invalidation_gaps(methods):
+    """methods: name -> FunctionDef (constructor excluded).  If two or more methods reset attribute C and all of them also mutate the
+    attribute(s) D, the class treats C as derived from D; another method that mutates D without resetting C leaves C stale.
+    -> [(C, sorted D, invalidators, offending method, what it mutates)]"""
+    inv = dict((n, _self_invalidated(f)) for n, f in methods.items())
+    mut = dict((n, _self_mutated(f)) for n, f in methods.items())
+    out = []
+    caches = set().union(*inv.values()) if inv else set()
+    for C in sorted(caches):
+        invs = sorted(m for m in inv if C in inv[m])
+        if len(invs) < 2:
+            continue
+        D = set.intersection(*[mut[m] - {C} for m in invs])
+        if not D:
+            continue
+        for n in sorted(methods):
+            if n not in invs and mut[n] & D:
+                out.append((C, sorted(D), invs, n, sorted(mut[n] & D)))
+    return out
+
+
+@rule("C16", "R10", "K4", "every method that changes what a cache was computed from also resets the cache",
+      min_instances=1, also=("C03", "C14"),
+      clause="Belief inferred from the class itself: when two or more methods reset an attribute C (to None / empty / .clear()) and each of "
+             "them also mutates the same attribute(s) D, C is a value derived from D; then every other method of the class that mutates D "
+             "resets C too.  A parser that caches its prioritised taggers and clears the cache in add_plugin() and remove_plugin_class() but "
+             "not in remove_plugin() keeps applying a removed plugin's syntax.")
+def c16_r10(ctx):
+    prog = ctx.prog
+    probe = ast.parse(
+        "class P:\n"
+        "    def add(self, p):\n        self.plugins.append(p)\n        self._cache.clear()\n"
+        "    def drop_class(self, c):\n        self.plugins = [p for p in self.plugins if not isinstance(p, c)]\n        self._cache.clear()\n"
+        "    def drop(self, p):\n        self.plugins.remove(p)\n")
+    pm_ = dict((n.name, n) for n in probe.body[0].body)
+    if [g[3] for g in _invalidation_gaps(pm_)] != ["drop"]:
+        raise AnalysisError("C16-R10 detector does not match its own positive example")
+    n = 0
+    for cls in prog.classes.values():
+        if cls.module.name.startswith(("whoosh.lang", "whoosh.support")):
+            continue
+        meths = dict((f.name, f.node) for f in cls.methods.values() if f.name != "__init__")
+        if len(meths) < 2:
+            continue
+        n += 1
+        for C, D, invs, name, what in _invalidation_gaps(meths):
+            f = cls.methods[name]
+            ctx.saw(f)
+            ctx.ob(f, False, "%s() resets self.%s like the other methods that change %s" % (name, C, ", ".join("self." + d for d in D)),
+                   detail="%s all change %s and reset self.%s; %s() changes %s and leaves self.%s as it was (stale)" % (
+                       ", ".join(m + "()" for m in invs), ", ".join("self." + d for d in D), C, name, ", ".join("self." + w for w in what), C))
+    ctx.ob("whole program", n > 200, "%d classes examined for derived attributes that one mutator forgets to reset" % n)
+    if n < 200:
+        raise AnalysisError("only %d classes examined" % n)
